@@ -19,6 +19,10 @@ Supported Python subset (anything else: the translator fails, which the checks t
 Types: ord (an abstract totally ordered type, comparisons go through the parameters lt/le), val (Edzed.Val),
 bool, rat, optrat (Optional number), optx (any Optional), str, vals (List Val).
 
+The simulator's main loop `Circuit._simulate` (with its inner `select_blk`) has a generator of its own,
+tools/py2lean_sim.py (statement-by-statement translation of one pass through `while True:` into a step
+function over the loop's locals, primitives as parameters) -> Gen/TranslatedSimulate.lean.
+
 Usage: py2lean.py <output file>
 """
 import ast
@@ -1154,6 +1158,9 @@ def main(outfile):
     main_persist(os.path.join(os.path.dirname(outfile), 'TranslatedPersist.lean'))
     main_sim(os.path.join(os.path.dirname(outfile), 'TranslatedSim.lean'))
     main_ext(os.path.join(os.path.dirname(outfile), 'TranslatedExt.lean'))
+    import py2lean_sim
+    py2lean_sim.main_simulate(os.path.join(os.path.dirname(outfile), 'TranslatedSimulate.lean'),
+                              lambda: fn_ast(simulator.Circuit._simulate), write_if_changed)
 
 
 if __name__ == '__main__':
